@@ -218,6 +218,57 @@ def odt_calendar_retained_real(P):
     return h
 
 
+@lemma({"d": int, "n": int, "o": int, "d1": int, "n1": int, "o0": int, "o1": int}, params=["before", "after", "after@3600", "after@-16200", "after@64800"], budget=240, per_path=60,
+       bounds="every OffsetDateTime (DayCalendar, any offset) converted with in_zone into every zone of 2 intervals (any transition, any "
+              "offsets): same instant, the zone's wall offset at that instant, local time = instant + that offset, the zone, and the "
+              "SAME calendar as the source (partition: instant before / after the zone's transition; the instant read back through "
+              "to_instant is asserted before the transition for every offset and after it for the later offset in {+1h, -4h30, +18h})")
+def odt_in_zone(P):
+    from props import symzone
+    side, _, fixed = P.partition("@")
+
+    def h(d, n, o, d1, n1, o0, o1):
+        if fixed:
+            assume(o1 == int(fixed))
+            o1 = int(fixed)
+        zone, T = symzone.make([(d1, n1)], [o0, o1])
+        assume(symzone.LO + 8 <= d <= symzone.HI - 8)
+        t = inst(d, n)
+        tot = d * NPD + n
+        assume((tot < T[0]) == (side == "before"))
+        x = OffsetDateTime._ctor(instant=t, offset=off(o), calendar=HOST)
+        z = x.in_zone(zone)
+        zo = o0 if side == "before" else o1
+        local = tot + zo * NS
+        ok = (z.zone is zone and z.calendar is HOST and z.offset.seconds == zo
+              and daycal.days_of(z.date) == local // NPD and z.time_of_day.nanosecond_of_day == local % NPD)
+        # the instant read back through to_instant (local - offset: odt_to_instant's subject): with a symbolic later offset that one
+        # extra query is solver-unknown (as in zdt_plus_duration), so the "after" side asserts it for the concrete later offsets only
+        return ok and ((side == "after" and not fixed) or itot(z.to_instant()) == tot)
+    return h
+
+
+FIXED_OFFSETS = [0, 3600, -16200, 1234, -64800]
+
+
+@lemma({"d": int, "n": int}, params=FIXED_OFFSETS, budget=120, per_path=60,
+       bounds="every instant, offsets {0, +1h, -4h30, +1234 s, -18h} (cached and uncached fixed zones), DayCalendar: in_fixed_zone keeps "
+              "local date/time, instant, offset and calendar, and its zone is the fixed zone of that offset; to_offset_date_time of "
+              "the result gives the source back")
+def odt_in_fixed_zone(o):
+    def h(d, n):
+        t = inst(d, n)
+        x = OffsetDateTime._ctor(instant=t, offset=Offset.from_seconds(o), calendar=HOST)
+        z = x.in_fixed_zone()
+        tot = d * NPD + n
+        local = tot + o * NS
+        back = z.to_offset_date_time()
+        return (z.calendar is HOST and z.offset.seconds == o and itot(z.to_instant()) == tot and z.zone.get_utc_offset(t).seconds == o
+                and daycal.days_of(z.date) == local // NPD and z.time_of_day.nanosecond_of_day == local % NPD
+                and back.calendar is HOST and back.offset.seconds == o and local_total(back) == local)
+    return h
+
+
 # ZonedDateTime + Duration over a symbolic zone: shared with C05 (props/zdt.py)
 from props import zdt  # noqa: E402
 
